@@ -52,6 +52,19 @@ CLAIMED.update({
     },
 })
 
+CLAIMED.update({
+    "C03": {
+        "text": "Schedule independence argued from ownership and FIFO tickets, each decided on the resolved program: closure-capture "
+                "facts show the sink/source is owned by one thread and workers hold only their payload and result slot; the ticket "
+                "(a Receiver, checked from resolved generic args) is enqueued in the caller's body before the work is spawned "
+                "(dominance); the consumer blocks on the dequeued ticket (callee is Receiver::recv, never try_recv) before write_frame; "
+                "EOF marker before Ok; MT and ST writers share the chunking constant (evaluated) and codecs. Termination of finish() is not decided.",
+        "note": "trusts crossbeam FIFO, rayon::spawn-once, JoinHandle::join; no yield hook is needed by this technique",
+        "technique": "static analysis: closure-capture ownership, dominance of ticket send over spawn, callee identity of blocking receives (MIR)",
+        "design_ref": "§5 C03",
+    },
+})
+
 NOT_APPLICABLE = {
     "C08": "every clause is numeric (rANS/arith/fqzcomp state arithmetic, ITF8/LTF8 bit arithmetic): correct and off-by-one "
            "implementations have the same code shape, so no sound static rule short of a solver/proof decides it; the "
